@@ -23,5 +23,15 @@ for cfg in ("E", "D"):
             continue
         sig = "(%s) -> %s" % (", ".join(fn.j.get("inputs", [])), fn.j.get("output", ""))
         out.setdefault(fn.crate, {})[re.sub(r"#\d+$", "", p)] = sig
-json.dump({k: dict(sorted(v.items())) for k, v in sorted(out.items())}, open(os.path.join(HERE, "rules", "known_fns.json"), "w"), indent=0)
+adts = {}
+for cfg in ("E", "D"):
+    d, info = build.build(cfg)
+    f = Facts(d, info)
+    for crate, cd in f.crates.items():
+        for a in cd["adts"]:
+            if a["kind"] == "struct" or len(a["variants"]) == 1:
+                adts.setdefault(crate, {})[a["path"]] = [[x["name"], x["ty"]] for x in a["variants"][0]["fields"]]
+res = {k: dict(sorted(v.items())) for k, v in sorted(out.items())}
+res["__adts__"] = adts
+json.dump(res, open(os.path.join(HERE, "rules", "known_fns.json"), "w"), indent=0)
 print({k: len(v) for k, v in out.items()})
